@@ -154,7 +154,7 @@ let handle (f : string array) : string =
        show (fun out -> if out = content then "ok" else "diff")
          (M.decrypt (fun () -> cs) (fun () -> ci) unwrap (fun _ _ ct -> ct) (fun _ _ _ -> None) (fun _ _ -> true) env () ())
      | _ -> "BADCASE")
-  | "E" | "S" | "P" | "PC" | "SC" | "EC" | "K" | "PW" | "PL" | "KDS" -> "SKIP"
+  | "E" | "S" | "P" | "PC" | "PF" | "SC" | "EC" | "K" | "PW" | "PL" | "KDS" -> "SKIP"
   | _ -> "BADCASE"
 
 let () = run_file Sys.argv.(1) handle
